@@ -28,7 +28,7 @@ func C20(c *Ctx) {
 		"(A12) pagination-callback idiom on go/ssa CFGs: in every closure passed to query.FilteredPaginate the append to the result is guarded by `accumulate`, no non-error return is control- or data-dependent on `accumulate` (so counting pages and collecting pages see the same hits), the appended element is the decoded `value`, and every `false` return is guarded by a predicate over the request; " +
 		"for GenericFilteredPaginate callbacks a nil result is returned only under a request-dependent filter and the returned item carries the decoded value; " +
 		"(A7) every store section is encoded and decoded with one single Go type across all writers, getters, iterators and paginated queries, and the prefix store handed to a paginator is the section its callback decodes. Structural necessary conditions; SDK paginator correctness is trusted."
-	r.Rules = []string{"A1.query-readonly", "A12.accumulate-guard", "A12.hit-independent-of-accumulate", "A12.element", "A12.item-identity", "A12.filter-only-drop", "A12.filter-complete", "A11.parser", "A11.reprefix", "A7.section-type", "A12.decode-fresh"}
+	r.Rules = []string{"A1.query-readonly", "A12.accumulate-guard", "A12.hit-independent-of-accumulate", "A12.element", "A12.item-identity", "A12.filter-only-drop", "A12.filter-complete", "A11.parser", "A11.reprefix", "A7.section-type", "A12.decode-fresh", "A12.page-request"}
 	decodeFresh(c, ir.Modules...)
 	r.Trusted = []string{"cosmos-sdk types/query FilteredPaginate / GenericFilteredPaginate semantics", "codec (Must)Unmarshal decodes what (Must)Marshal encoded for the same type"}
 	r.NotDecided = []string{"cross-page completeness as behaviour", "bank keeper pagination used by TotalSupply"}
@@ -55,6 +55,7 @@ func C20(c *Ctx) {
 
 	// A12: pagination callbacks
 	nFP, nGFP, nFilt := 0, 0, 0
+	nPage := 0
 	for _, f := range w.Funcs {
 		if w.IsGenerated(f) || ir.IsFixture(f) && !strings.Contains(fn(f), "fixtures/c20") {
 			continue
@@ -72,6 +73,44 @@ func C20(c *Ctx) {
 				name := sc.Name()
 				if o := sc.Origin(); o != nil {
 					name = o.Name()
+				}
+				if name == "FilteredPaginate" || name == "GenericFilteredPaginate" || name == "Paginate" {
+					// the caller's page request reaches the paginator as it came: offsets, keys, limits, the reverse and count
+					// flags mean what the SDK's paginator makes of them — a request rewritten on the way (an offset turned into a
+					// key, a limit clamped, a default put in) pages by other rules than the client asked for
+					if !ir.IsFixture(f) {
+						pidx := 1
+						if name == "GenericFilteredPaginate" {
+							pidx = 2
+						}
+						if pidx < len(call.Common().Args) {
+							raw := w.ExprOf(call.Common().Args[pidx])
+							pe := w.Expand(raw, 3)
+							isReqPage := func(e *ir.Expr) bool {
+								for _, a := range w.Expand(e, 3).Alts() {
+									if !(a.Op == "field" && a.Name == "Pagination" && len(a.Args) == 1 && (a.Args[0].Op == "param" || a.Args[0].Op == "free" || a.Args[0].Op == "captured")) {
+										return false
+									}
+								}
+								return true
+							}
+							okPage := isReqPage(pe)
+							if !okPage && pe.Any(func(z *ir.Expr) bool { return z.Op == "param" }) {
+								// a paginator shared by several queries is handed the page request: judged as each query hands it in
+								isQuery := false
+								for _, q := range w.Roots["QUERY"] {
+									if q == f {
+										isQuery = true
+									}
+								}
+								if !isQuery {
+									okPage = liftAll(c, f, raw, isReqPage)
+								}
+							}
+							nPage++
+							r.Require(okPage, "A12.page-request", fn(f)+"|"+name, pos(c, in), "the request's Pagination is handed to the SDK paginator unchanged", "page request: "+pe.String())
+						}
+					}
 				}
 				switch name {
 				case "FilteredPaginate":
@@ -127,6 +166,7 @@ func C20(c *Ctx) {
 		}
 	}
 	r.Floor("FilteredPaginate call sites", nFP, 3)
+	r.Floor("paginator calls judged for their page request", nPage, 6)
 	r.Floor("GenericFilteredPaginate call sites", nGFP, 3)
 	r.Floor("request filter fields judged on the hits of paginated queries", nFilt, 8)
 	ctl := 0
